@@ -89,6 +89,8 @@ def check(ctx):
     ctx.rule("C20.R2", "update thread: after the done-wait returns true the render step still runs before the loop exits; the render step clears the stale flag under the lock")
     ctx.rule("C20.R3", "__exit__ sets the done event, then joins the update thread")
     ctx.rule("C20.R4", "each notification method takes the lock, sets the stale flag and forwards (section, scope[, amount]) to the same-named state method")
+    ctx.rule("C20.R8", "exceptions are part of the state to render: every formatting of a recorded exception by the traceback module in the progress package (format_exception and friends can raise on exceptions they cannot format, e.g. a SyntaxError whose text is not a str) is guarded by an Exception-wide fallback")
+    ctx.run(rule_exception_formatting_guarded, "C20.R8")
     ctx.rule("C20.R7", "the counting state evaluated with a scripted clock on every legal notification sequence of up to four events over two scopes (elapsed-time attribution interleaved anywhere, up to three calls running): counts equal the events, nothing negative, the scopes' elapsed times add up to the time during which at least one call was running")
     ctx.run(rule_state_accounting, "C20.R7")
     ctx.rule("C20.R5", "state transitions agree: completed/failed are equal modulo the counter; elapsed update first; running counts move together; running-set membership iff running > 0")
@@ -642,3 +644,34 @@ def rule_state_accounting(ctx, rid):
            else "; ".join(bad[:2]) + (f" (+{len(bad) - 2} more)" if len(bad) > 2 else ""))
     ctx.floor(rid, "notification sequences the state was evaluated on", n, 300)
     ctx.notes["state_sequences_evaluated"] = n
+
+
+
+# ------------------------------------------------------------------------------------------------ C20.R8
+_TB_FORMATTERS = {"traceback.format_exception", "traceback.format_exception_only", "traceback.format_exc", "traceback.print_exception",
+                  "traceback.format_tb", "traceback.TracebackException", "traceback.TracebackException.from_exception"}
+
+
+def rule_exception_formatting_guarded(ctx, rid):
+    m = ctx.model
+    n = 0
+    for f in m.funcs.values():
+        if not f.module.name.startswith("uberjob.progress"):
+            continue
+        for c in f.own_calls():
+            if not (ext_names(m, f, c) & _TB_FORMATTERS):
+                continue
+            n += 1
+            guarded = False
+            for t in [x for x in f.own_nodes() if isinstance(x, ast.Try)]:
+                if in_body(f.module, c, t, "body"):
+                    for h in t.handlers:
+                        if (handler_catches_all(h) or set(handler_classes(h)) & {"Exception", "BaseException"}) and \
+                                not any(isinstance(x, ast.Call) and x in f.own_calls() and ext_names(m, f, x) & _TB_FORMATTERS for x in ast.walk(h)) and \
+                                not any(isinstance(x, ast.Raise) for x in ast.walk(h)):
+                            guarded = True
+            ctx.ob(rid, f"{f.short}/exception-formatting-guarded", guarded, loc(f, c),
+                   "formatting a recorded exception falls back to a total text when the traceback module cannot format it" if guarded else
+                   f"`{norm(c)[:60]}` is not guarded: an exception the traceback module cannot format (a SyntaxError whose text is not a str, "
+                   f"a broken __str__) raises inside the render step - the update thread ends and nothing is rendered any more", norm(c)[:100])
+    ctx.floor(rid, "formattings of recorded exceptions in the progress package", n, 1)
